@@ -64,6 +64,14 @@ fixed("F15", "C08", "skips a rail that feeds nothing", "rail_rep() raised IndexE
 fixed("F18", "C08", "keeps the warning of a rail whose components agree", "rail_rep() dropped the warning text of a rail whose components all carry the same warning (e.g. a single component)", ["C08.Warnings"])
 fixed("F13", "C03", "raise when overloaded", "overloaded source resistance / PSwitch / PMux / MOSFET rectifier returned inverted or amplified voltages, or an inf/nan table accepted as converged",
       ["C03.PassiveNoGain", "C03.SourceNoGain", "C03.Finite", "C03.NoNaN"])
+fixed("F2", "C12", "passes the diode drop", "from_file() did not pass vdrop to a loaded Rectifier: a diode bridge reloaded as a 0 Ohm MOSFET bridge", ["C12.State", "C12.Solve"])
+fixed("F11b", "C12", "phases() attributes each component", "the Domain column of phases() depended on construction order (changed across save/from_file)", ["C12.Phases", "C16.SameAsFresh.Phases"])
+fixed("F8", "C16", "input list valid when an input is renamed", "renaming a PMux input (or changing the rail it was referenced by) through change_comp left a stale reference: solve()/rail_rep()/save() raised OverflowError, phases() KeyError",
+      ["C16.ReportsSucceed.Solve", "C16.NoAuxAnomaly", "C16.Structure"], "rename_mux_input")
+fixed("F9", "C16", "input list valid when an input is deleted", "del_comp(<PMux input>, del_childs=False) re-linked the mux in the graph but left the deleted name in its ordered input list",
+      ["C16.ReportsSucceed.Solve", "C16.NoAuxAnomaly", "C16.Structure"], "del_mux_input_keep_children")
+fixed("F20", "C16", "phases() lists Rectifier", "phases() omitted Rectifier components", ["C16.LiveComponents.phases"])
+fixed("F12", "C17", "restores the battery source when a callback", "batt_life() left the probed voltage/resistance in the battery Source when a callback or the solver raised", ["C17.BattRestored"])
 
 json.dump({"_comment": "open = genuine defect recorded, not repaired (suppresses exactly the matching violations); "
                        "fixed = repaired by the named fix: commit in /repo (suppresses nothing)", "findings": F},
